@@ -1,5 +1,6 @@
 (* C20 — xtpl extracts every translatable literal the templates pass at run time. Theorems only. *)
-From Tpl Require Import Sys.Xtpl Exp.Eval Proofs.XtplProps.
+From Tpl Require Import Sys.Xtpl Sys.XtplCat Exp.Eval Proofs.XtplProps Proofs.XtplCatProps.
+From Coq Require Import Permutation.
 Open Scope N_scope.
 
 (* an extracted entry comes from a keyword call with enough arguments whose msgid argument is a
@@ -33,6 +34,66 @@ Print Assumptions entry_sound.
 Print Assumptions entry_complete.
 Print Assumptions header_kept.
 Print Assumptions extracted_is_runtime_value.
+
+(* ---- the catalogue of a SET of templates (Sys/XtplCat.v: the merge done by Save, for every order of the files) ---- *)
+(* the fold that mirrors Save equals the closed specification: the header, then one entry per key in order of first
+   appearance, whose references are ALL occurrences of that key in order *)
+Theorem cat_is_spec : forall es, XtplCatProps.ids_nonempty es -> cat_of es = cat_spec es.
+Proof. exact XtplCatProps.cat_is_spec. Qed.
+Theorem cat_refs_exact : forall es ce, XtplCatProps.ids_nonempty es -> In ce (cat_of es) -> ce_hdr ce = false ->
+  ce_refs ce = map (fun fe => en_ref (fst fe) (snd fe)) (filter (has_key (ce_key ce)) es) /\ ce_refs ce <> [] /\
+  exists f en, In (f, en) es /\ en_key en = ce_key ce /\ ce_ctxt ce = en_ctxt en /\ ce_id ce = en_id en /\ ce_id2 ce = en_id2 en.
+Proof. exact XtplCatProps.cat_refs_exact. Qed.
+(* one entry per distinct (context, msgid); its references are exactly the occurrences of that pair.  The key is
+   context ++ EOT ++ msgid (gettext's convention): a context containing U+0004 can collide (eot_collision) *)
+Theorem cat_one_entry_per_pair : forall es, XtplCatProps.ids_nonempty es ->
+  (forall fe, In fe es -> ~ In cEOT (en_ctxt (snd fe))) ->
+  NoDup (map (fun ce => (ce_ctxt ce, ce_id ce)) (cat_of es)) /\
+  forall f en, In (f, en) es ->
+    exists ce, In ce (cat_of es) /\ ce_hdr ce = false /\ ce_ctxt ce = en_ctxt en /\ ce_id ce = en_id en /\
+               ce_refs ce = map (fun fe => en_ref (fst fe) (snd fe))
+                                (filter (fun fe => str_eqb (en_ctxt (snd fe)) (en_ctxt en) && str_eqb (en_id (snd fe)) (en_id en)) es).
+Proof. exact XtplCatProps.cat_one_entry_per_pair. Qed.
+Example eot_collision : exists es, XtplCatProps.ids_nonempty es /\ length es = 2%nat /\ length (cat_of es) = 2%nat.
+Proof. exact XtplCatProps.eot_collision. Qed.
+Example empty_id_loses_header : exists es, ~ In cat_header (cat_of es).
+Proof. exact XtplCatProps.empty_id_loses_header. Qed.
+(* Go ranges over a map of files: whatever the order, the same keys with the same references up to order *)
+Theorem cat_order_irrelevant : forall es es', XtplCatProps.ids_nonempty es -> Permutation es es' ->
+  forall ce, In ce (cat_of es) -> exists ce', In ce' (cat_of es') /\ ce_key ce' = ce_key ce /\ ce_hdr ce' = ce_hdr ce /\
+                                          Permutation (ce_refs ce) (ce_refs ce').
+Proof. exact XtplCatProps.cat_order_irrelevant. Qed.
+
+Section C20Set.
+Variable is_letter : rune -> bool.
+Variable is_udigit : rune -> bool.
+Variable attr_prefix : str.
+(* every keyword has a msgid position (xtpl's keyword parser guarantees it) => the header entry is kept, first *)
+Theorem catalogue_header_kept : forall fuel kws files, XtplCatProps.kws_have_id kws ->
+  exists rest, catalogue is_letter is_udigit attr_prefix fuel kws files = cat_header :: rest /\
+               forall ce, In ce rest -> ce_hdr ce = false.
+Proof. exact (XtplCatProps.catalogue_header_kept is_letter is_udigit attr_prefix). Qed.
+(* every occurrence in every file is referenced ... *)
+Theorem catalogue_complete : forall fuel kws files f root en, XtplCatProps.kws_have_id kws -> In (f, root) files ->
+  In en (extract_node is_letter is_udigit attr_prefix fuel kws root) ->
+  exists ce, In ce (catalogue is_letter is_udigit attr_prefix fuel kws files) /\ ce_hdr ce = false /\
+             ce_key ce = en_key en /\ In (en_ref f en) (ce_refs ce).
+Proof. exact (XtplCatProps.catalogue_complete is_letter is_udigit attr_prefix). Qed.
+(* ... and nothing else is *)
+Theorem catalogue_sound : forall fuel kws files ce r, XtplCatProps.kws_have_id kws ->
+  In ce (catalogue is_letter is_udigit attr_prefix fuel kws files) -> ce_hdr ce = false -> In r (ce_refs ce) ->
+  exists f root en, In (f, root) files /\ In en (extract_node is_letter is_udigit attr_prefix fuel kws root) /\
+                    en_key en = ce_key ce /\ r = en_ref f en.
+Proof. exact (XtplCatProps.catalogue_sound is_letter is_udigit attr_prefix). Qed.
+Theorem catalogue_keys_nodup : forall fuel kws files, XtplCatProps.kws_have_id kws ->
+  NoDup (map ce_key (catalogue is_letter is_udigit attr_prefix fuel kws files)).
+Proof. exact (XtplCatProps.catalogue_keys_nodup is_letter is_udigit attr_prefix). Qed.
+End C20Set.
+Print Assumptions cat_is_spec.
+Print Assumptions cat_one_entry_per_pair.
+Print Assumptions cat_order_irrelevant.
+Print Assumptions catalogue_complete.
+Print Assumptions catalogue_sound.
 
 (* Non-vacuity:  _x('ctx', "it's")  with keyword _x:1c,2, and  __(name)  *)
 Example extract_example :
